@@ -986,6 +986,9 @@ class ComposerBinary(ComposerBase):
         except UnicodeError as e:
             six.raise_from(InvalidValue(value, type(self)), e)
 
+        if b'\x00' in value:
+            raise InvalidValue(value, type(self))
+
         self.compose_raw(value)
         self.compose_raw(b'\x00')
 
